@@ -92,7 +92,7 @@ type labelNode struct {
 
 func (n *labelNode) AddLeaf(label []byte) {
 	l := len(label)
-	if l <= 24 {
+	if l <= 24 && !hasZeroByte(label) {
 		if n.s == nil {
 			n.s = make(map[[24]byte]*labelNode)
 		}
@@ -109,7 +109,7 @@ func (n *labelNode) AddLeaf(label []byte) {
 
 func (n *labelNode) GetOrAddChild(label []byte) *labelNode {
 	l := len(label)
-	if l <= 24 {
+	if l <= 24 && !hasZeroByte(label) {
 		var key [24]byte
 		copy(key[:], label)
 		if child := n.s[key]; child != nil {
@@ -136,7 +136,7 @@ func (n *labelNode) GetOrAddChild(label []byte) *labelNode {
 
 func (n *labelNode) GetChild(label []byte) (child *labelNode, ok bool) {
 	l := len(label)
-	if l <= 24 {
+	if l <= 24 && !hasZeroByte(label) {
 		var key [24]byte
 		copy(key[:], label)
 		child, ok = n.s[key]
@@ -163,4 +163,15 @@ func (n *labelNode) Len() int {
 		}
 	}
 	return l
+}
+
+// hasZeroByte reports whether label contains a zero byte. Such labels cannot
+// use the zero padded [24]byte keys, otherwise "a\x00" will be equal to "a".
+func hasZeroByte(label []byte) bool {
+	for _, b := range label {
+		if b == 0 {
+			return true
+		}
+	}
+	return false
 }
